@@ -45,6 +45,9 @@ CLAIMS = {
     "C11": ("G+F+P", "guard-tree evaluation; normal-form equality; panic reachability",
             "4", "radix guards and the zero case of to_radix_be/le, radix-class dispatch, signed == unsigned on the bit pattern, the parse table accepts every digit character the printer emits, only radix panics reachable",
             "NOT decided: the numerals produced by the conversion loops."),
+    "C12": ("F+G", "forwarding shape and guard evaluation of the arguments handed to Formatter::pad_integral",
+            "4", "THIN CLAIM - only these clauses: Debug == Display; signed Binary/Octal/LowerHex/UpperHex format the two's-complement bit pattern through the unsigned impl of the same trait; signed Display/LowerExp/UpperExp pass (value >= 0, \"\", text of the magnitude via the same trait) to pad_integral; unsigned Display/Octal pass the radix-10/radix-8 numeral and the right prefix",
+            "NOT decided: the produced text (per-digit assembly, interior zero padding, exponent form, width/fill/alignment/flag handling) - i.e. almost all of the statement. These clauses are necessary conditions only."),
     "C13": ("F+G+P", "normal-form equality; guard-tree evaluation; audited panic reachability",
             "4", "digit-array accessors are the identity on the representation; from_digit; sign guards of the mixed-sign TryFrom impls around the unsigned conversions; no conversion impl can reach an API-contract panic",
             "NOT decided: representability loops; BTryFrom between different widths (two independent digit counts)."),
@@ -65,9 +68,7 @@ CLAIMS = {
             "NOT decided: exact preimage counts (unbiasedness), Fill::try_fill byte view."),
 }
 
-NOT_APPLICABLE = {
-    "C12": "formatting output is run-time text assembled by per-digit loops, to_str_radix and the std formatter; no sentence of the statement has a structural necessary condition that static analysis of this code decides (DESIGN.md 4/C12)",
-}
+NOT_APPLICABLE = {}
 
 
 def main():
